@@ -36,6 +36,9 @@ CHECKS.update({
     'C05': {'engine': 'verus+kani', 'design_ref': '5 C05', 'technique': 'Verus lemmas over the derived normal form + Kani contract harnesses for unit_from_scale/_fit selection on the compiled crate',
             'level_text': 'Unbounded proof of the natural-unit / fitted-unit / reference-unit statements over the operator normal forms; selection contracts proved per type over all f64 bit patterns.',
             'level_note': 'Trusted: as C04; K-ufs/K-fit axioms are stated twice (Verus / Kani) under one id.'},
+    'C07': {'engine': 'verus+kani', 'design_ref': '5 C07', 'technique': 'Verus obligations: every scale literal of the expanded scale() tables equals the chained published definition (independent table), exactly or within amount precision; Kani: name/symbol/si_prefix tables',
+            'level_text': 'Every unit of every catalogue type (main crate f64 and decimal, astronomical crate) is an obligation of its own; exhaustive over the finite tables, discharged by the verifier over exact rationals.',
+            'level_note': 'Trusted: spec/units.toml transcribes the published definitions; literal tokens parsed to exact rationals by the generator; Amnt!/Dec! convert a literal to the nearest amount value.'},
     'C08': {'engine': 'verus', 'design_ref': '5 C08', 'technique': 'deductive verification of generated constructors, accessors and scalar operators (Verus)',
             'level_text': 'Unbounded proof per generated impl for arbitrary amounts of the abstract amount type (NaN, zeros, infinities included).',
             'level_note': 'Trusted: as C01.'},
@@ -50,6 +53,6 @@ NOT_APPLICABLE = {
     'C15': 'thin wrappers over core::fmt and float/decimal-to-text conversion; no verifier here models core::fmt, stubbing it removes what the property states (DESIGN 7)',
     'C17': 'behaviour is that of serde_derive/serde_json/fpdec text codecs (dependencies); no repository function to put under contract (DESIGN 7)',
     'C19': 'a property of the Cargo feature lattice / cfg gates decided by cargo check per configuration, not by any contract (DESIGN 7)',
-    'C07': 'not yet built', 'C09': 'not yet built',
+    'C09': 'not yet built',
     'C14': 'not yet built', 'C16': 'not yet built', 'C18': 'not yet built',
 }
